@@ -33,13 +33,14 @@ NoWriter == [st |-> "none", p |-> 0]
 
 \* paths 1, 2 and 5 hold files written by the real Rust writers beforehand (zoom levels 2 and 4);
 \* 5 is a bigWig under a name that is neither .bw nor .bb; 3 and 4 do not exist yet
-Init == /\ fs = [p \in Paths |-> CASE p = 1 -> [st |-> "ok", kind |-> "bw", ds |-> 1, zl |-> <<2, 4>>]
-                                   [] p = 2 -> [st |-> "ok", kind |-> "bb", ds |-> 1, zl |-> <<2, 4>>]
-                                   [] p = 5 -> [st |-> "ok", kind |-> "bw", ds |-> 1, zl |-> <<2, 4>>]
-                                   [] OTHER -> Absent]
-        /\ rd = [h \in Handles |-> NoReader]
-        /\ it = [i \in Iters |-> NoIter]
-        /\ wr = [w \in Writers |-> NoWriter]
+Fs0 == [p \in Paths |-> CASE p = 1 -> [st |-> "ok", kind |-> "bw", ds |-> 1, zl |-> <<2, 4>>]
+                           [] p = 2 -> [st |-> "ok", kind |-> "bb", ds |-> 1, zl |-> <<2, 4>>]
+                           [] p = 5 -> [st |-> "ok", kind |-> "bw", ds |-> 1, zl |-> <<2, 4>>]
+                           [] OTHER -> Absent]
+Rd0 == [h \in Handles |-> NoReader]
+It0 == [i \in Iters |-> NoIter]
+Wr0 == [w \in Writers |-> NoWriter]
+Init == fs = Fs0 /\ rd = Rd0 /\ it = It0 /\ wr = Wr0
 
 Has(o, f) == f \in DOMAIN o
 \* triples <<start, end, x>> of chromosome c
@@ -57,7 +58,7 @@ Enabled(o) ==
     [] o.op \in {"close", "exit", "isbw", "isbb", "chroms", "chrom1", "zooms", "info", "sql", "records", "zoomrecs", "values"} -> rd[o.h].st # "none"
     [] o.op = "next" -> it[o.i].st = "live"
     [] o.op = "wopen" -> TRUE
-    [] o.op \in {"wwrite", "wclose"} -> wr[o.w].st # "none" /\ (o.op = "wwrite" => ~InUse(wr[o.w].p))
+    [] o.op \in {"wwrite", "wclose"} -> wr[o.w].st # "none" /\ ((o.op = "wwrite" /\ wr[o.w].st = "fresh") => ~InUse(wr[o.w].p))
     [] OTHER -> FALSE
 
 (* ----------------------------- outcome class ----------------------------- *)
